@@ -15,6 +15,7 @@ A = dict(
 
 PROPS = {
     'C09': dict(
+        standins=['tower_ops'],
         units_quick=['tower'], units_thorough=['tower'],
         claim="every listed Fq2/Fq6/Fq12 function (real body, sliced from rustc's expansion) equals the schoolbook operation of the quotient ring "
               "it lives in; inverses: Some(y) => x*y = 1 and x != 0, None => x = 0; sparse and non-residue products equal the dense product with the "
@@ -23,7 +24,7 @@ PROPS = {
         assumptions=[A['A5'], A['A5p'], A['D_FQ'], A['TOOLS']],
     ),
     'C17': dict(
-        units_quick=['cofactor'], units_thorough=['cofactor'], timeout=240,
+        units_quick=['cofactor', 'curve'], units_thorough=['cofactor', 'curve'], timeout=600,
         claim="chain_z, chain_h2_eff (real bodies, generic over CurveProjective), G1::clear_h and G2::clear_h return exactly [0xd201000000010000]P, "
               "[h_eff(G2)]P (the 636-bit RFC 9380 constant), [0xd201000000010001]P and [h_eff(G2)]P for every point of the abstract group, i.e. for every "
               "curve point in any representation; additivity and O -> O follow from the exact multiplier.",
@@ -31,6 +32,7 @@ PROPS = {
         assumptions=[A['A3'], A['A4'], "contracts of CurveProjective::{double, add_assign, sub_assign, is_zero, ...} are assumed in this unit; they are the statements of the C01 unit lifted through A3", A['TOOLS']],
     ),
     'C12': dict(
+        standins=['tower_ops'],
         units_quick=['finalexp', 'tower'], units_thorough=['finalexp', 'tower'], timeout=300,
         claim="Bls12::final_exponentiation (real body): returns None exactly for f = 0 and otherwise f^E with E = 3(q^12-1)/r: the exponent accumulated "
               "by the real statements (conjugate, inverse, Frobenius 1..3, squarings, exp_by_x with the crate's BLS_X) is tracked as an integer and "
@@ -126,6 +128,7 @@ PROPS = {
                      "rewrites R3s (for n in x.iter().rev()), R4b (for r in &CONST_ARRAY), R13 (integer-literal fallback i32 written out), R14 (operators on &i64 written with explicit deref)", A['TOOLS']],
     ),
     'C04': dict(
+        standins=['fq2_sqrt_order'],
         units_quick=['codec', 'scalar'], units_thorough=['codec', 'scalar', 'curve'], timeout=600,
         claim="the four decoders (real bodies of into_affine_unchecked and into_affine for G1/G2, compressed/uncompressed) equal the decoding functions "
               "dec_* / chk_* of specs/codec.vrs, written from the property statement, for every byte string of the right length: form flag, then "
@@ -156,6 +159,7 @@ PROPS = {
                      "R15 (`&mut reader` with reader: &mut R -> explicit reborrow, std's impl Read for &mut R)"],
     ),
     'C18': dict(
+        standins=['fq2_sqrt_order'],
         units_quick=['order', 'recover', 'mont'], units_thorough=['order', 'recover', 'mont', 'ffdep', 'tower'], timeout=900,
         claim="PARTIAL: Fq::sgn0 = parity of the canonical integer (limb-0 bit, proved with the limb-value lemma); Fq2::sgn0 = sgn0 of the first non-zero "
               "coefficient, real part first; Sgn0Result xor and negate_if exact; Ord / PartialOrd for Fq2 = lexicographic order with the u-coefficient most "
